@@ -43,7 +43,7 @@ class SmtpRelayWorld(object):
             raise _socket.error(111, 'Connection refused')
         if how == 'stall':
             gevent.event.Event().wait()
-        client, server = self.net.pair(peername=address, chunked=bool(self.cfg.get('unsolicited_partial')))
+        client, server = self.net.pair(peername=address, chunked=bool(self.cfg.get('unsolicited_partial')), capacity=self.cfg.get('capacity'))
         k = len(self.peers)
         scripts = self.cfg.get('scripts') or [self.cfg.get('script', {})]
         script = scripts[min(k, len(scripts) - 1)]
